@@ -20096,7 +20096,9 @@ int cg_ptset_read(cgsize_t *pnts)
     if (ptset == 0) return ier;
     if (ptset->npts <= 0) return CG_OK;
 
-    size = ptset->size_of_patch;
+    /* the node holds npts points (2 for a range, as cg_ptset_info reports),
+       not one per point of the patch a range covers */
+    size = ptset->npts;
     if (posit_base && posit_zone) {
         size *= cg->base[posit_base-1].zone[posit_zone-1].index_dim;
     } else {
